@@ -184,3 +184,111 @@ theorem abortLoop_own : ∀ (l : List Nat) (own : Seq.State), l.Nodup → (∀ i
 
 end SeqK
 end OdcGeo.C18
+
+namespace OdcGeo.C18
+
+theorem Sink.lookup_filter_notin (l : List (Nat × Bytes)) (xs : List Nat) (p : Nat) (hp : p ∉ xs) :
+    (l.filter (fun q => !xs.contains q.1)).lookup p = l.lookup p := by
+  induction l with
+  | nil => rfl
+  | cons a l ih =>
+    by_cases ha : xs.contains a.1 = true
+    · have hmem : a.1 ∈ xs := by simpa using ha
+      have hne : (p == a.1) = false := by
+        have : p ≠ a.1 := fun e => hp (e ▸ hmem)
+        simpa using this
+      rw [List.filter_cons]
+      simp only [ha, Bool.not_true, Bool.false_eq_true, if_false]
+      rw [ih, List.lookup_cons, hne]
+    · have ha' : xs.contains a.1 = false := by simpa using ha
+      rw [List.filter_cons]
+      simp only [ha', Bool.not_false, if_true]
+      rw [List.lookup_cons, List.lookup_cons, ih]
+
+theorem cancelAllPagedN_active (page : Nat) : ∀ (n : Nat) (s : Seq.State),
+    (cancelAllPagedN page n s).active = s.active.drop (n * page)
+  | 0, s => by simp [cancelAllPagedN]
+  | n + 1, s => by
+    rw [cancelAllPagedN, cancelAllPagedN_active page n]
+    simp only [cancelAllPaged, List.drop_drop]
+    congr 1
+    rw [Nat.add_mul, Nat.one_mul, Nat.add_comm]
+
+namespace Dist
+
+@[simp] theorem crash_pc_self (s : State) (t : Nat) : (crash s t).pc t = .faulted := by simp [crash]
+@[simp] theorem crash_pc_other (s : State) {t t' : Nat} (h : t' ≠ t) : (crash s t).pc t' = s.pc t' := by
+  simp [crash, h]
+@[simp] theorem crash_deleted (s : State) (t : Nat) : (crash s t).deleted = s.deleted := rfl
+
+/-- A worker dying with thread `t` anywhere outside the publication window (lock lease expiring) keeps the
+invariant of the cluster protocol. -/
+theorem crash_inv (cfg : Cfg) (s : State) (t : Nat) (hI : Inv cfg s) (hw : inWindow (s.pc t) = false) :
+    Inv cfg (crash s t) := by
+  have hpt := hI.pcs t
+  have hmt := hI.mutex t
+  have hids := hI.ids
+  refine inv_frame (t := t) hI (fun t' h => crash_pc_other s h)
+    ⟨hids.creates_le, hids.wid_range, hids.wid_created, hids.var_range, hids.var_created⟩ ?_ ?_ ?_ ?_ ?_
+    hI.calls hI.count
+  · -- free lock and unset variable: nothing has been created
+    intro h1 hv
+    have hv' : s.var = none := hv
+    show s.creates = 0
+    by_cases hl : s.lock = some t
+    · have hcs : inCS (s.pc t) = true := hmt.2 hl
+      cases hp : s.pc t <;> rw [hp] at hpt hcs hw <;> simp [inCS, inWindow] at hcs hw
+      · exact hpt hv'
+      · exact absurd (hpt.2 ▸ hv') (by simp)
+      · exact hpt.2
+      · exact hpt.2
+      · exact absurd (hpt.2.1 ▸ hv') (by simp)
+      · exact hpt.2
+    · have h1' : s.lock = none := by simpa [crash, hl] using h1
+      exact hI.free h1' hv'
+  · rw [crash_pc_self]
+    simp only [inCS, crash, goto_lock]
+    constructor
+    · intro h; simp at h
+    · intro h; split at h <;> simp_all
+  · intro t' h
+    simp only [crash, goto_lock]
+    by_cases hl : s.lock = some t
+    · simp only [hl, if_true]
+      constructor
+      · intro e; simp at e
+      · intro e; exact absurd (Option.some.inj e) (fun e => h e.symm)
+    · simp only [hl, if_false]
+  · rw [crash_pc_self]; trivial
+  · exact fun t' _ h => PCok_mono (s := s) rfl (fun _ h => h) (fun _ => rfl) (fun _ h => h) h
+
+theorem applyEv_deleted_mono (cfg : Cfg) (s : State) (e : Ev) (h : (applyEv cfg s e).deleted = false) :
+    s.deleted = false := by
+  cases e with
+  | step t => exact step_deleted_mono cfg s t h
+  | crash t => exact h
+
+theorem runEv_deleted_mono (cfg : Cfg) (evs : List Ev) :
+    ∀ s, (runEv cfg s evs).deleted = false → s.deleted = false := by
+  induction evs with
+  | nil => intro s h; exact h
+  | cons e rest ih => intro s h; exact applyEv_deleted_mono cfg s e (ih _ h)
+
+theorem runEv_inv (cfg : Cfg) (evs : List Ev) :
+    ∀ s, Inv cfg s → crashesOutsideWindow cfg s evs = true → (runEv cfg s evs).deleted = false →
+      Inv cfg (runEv cfg s evs) := by
+  induction evs with
+  | nil => intro s h _ _; exact h
+  | cons e rest ih =>
+    intro s h hc hd
+    have hd' := runEv_deleted_mono cfg rest _ hd
+    cases e with
+    | step t =>
+      have hc' : crashesOutsideWindow cfg (step cfg s t) rest = true := by simpa [crashesOutsideWindow] using hc
+      exact ih (step cfg s t) (step_inv cfg s t h hd') hc' hd
+    | crash t =>
+      simp only [crashesOutsideWindow, Bool.and_eq_true, Bool.not_eq_true'] at hc
+      exact ih (crash s t) (crash_inv cfg s t h hc.1) hc.2 hd
+
+end Dist
+end OdcGeo.C18
